@@ -18,6 +18,29 @@ CHECKS = {
             "depth; every applicable transition is executed on the real code and the solution sets compared; balanced moves must not "
             "introduce undefined points and must keep an equation.",
             "solution sets compared through L-R on a rational grid (proportional => equal; undecided cases counted, never flagged)", "5 C02"),
+    "C03": ("exploration",
+            "bounded exhaustive enumeration of all token strings, compared with a reference grammar model (acceptance + value)",
+            "Every token-class string up to the length bound (pairwise distinct leaf lexemes) and every short lexeme concatenation is "
+            "parsed by the real parser and by the reference grammar O-gram; acceptance must coincide and the parsed tree must have the "
+            "value the grammar prescribes (decided on a rational grid by degree bounds).",
+            "O-gram: greedy reading of the docstring EBNF plus the clauses of the property statement; O-lex; exact evaluator", "5 C03"),
+    "C10": ("model_checking",
+            "exhaustive enumeration of token soups under a watchdog + exhaustive parse-call histories on one parser vs a fresh parser",
+            "Totality and the closed error contract are checked on every token soup up to the bound, every truncation of the repository "
+            "examples and six nesting constructs up to depth 50; stickiness by every sequence of parse calls up to the depth bound over one "
+            "input per raise site, each call compared with a fresh parser.",
+            "10 s watchdog = non-termination; documented errors = ParserException subclasses and ValueError", "5 C10"),
+    "C11": ("exploration",
+            "bounded exhaustive enumeration of all character strings vs a reference lexer, both padding modes",
+            "Every string up to the length bound over a 25-character alphabet covering every character class, alias, blank and two "
+            "unsupported characters is tokenized in both padding modes and compared token by token with the reference lexer; "
+            "losslessness, end marker and ValueError-iff-unsupported are checked on each.",
+            "O-lex written from the property statement; representative characters per class", "5 C11"),
+    "C12": ("model_checking",
+            "exhaustive enumeration of operation histories (parse / tokenize / clear_cache / list mutation) on one live parser",
+            "Every sequence of operations up to the depth bound on one parser, replayed from a fresh instance, with every returned tree "
+            "and token list compared with a fresh parser's answer.",
+            "token objects and returned trees are not mutated by the harness", "5 C12"),
     "C06": ("model_checking",
             "explicit-state exploration: every state x every configuration x every node; snapshot oracle for purity",
             "For every explored state can_apply_to is called on every node under every configuration with a before/after snapshot of the "
